@@ -269,6 +269,30 @@ pub fn run(g: &mut Global) {
     g.random("events", g.tier.pick(12000, 200000), &|| crate::tele::wrap(strategy(1, 400)), &|t: &crate::tele::TCase<Case>, ctx: &mut Ctx| crate::tele::check_wrapped(t, ctx, if t.case.scalar { t.case.xs.len() } else { t.case.bars.len() }, t.case.cfg.n(), check));
     // reset() on the same instance, the next stretch possibly in another price / volume unit (another instrument)
     g.random("resets", g.tier.pick(30000, 300000), &reset_strategy, &check_resets);
+    // MoneyFlowIndex on an instrument whose money flow (price x volume) is itself near the top of the f64 range while
+    // every price, every flow and every window total is finite: prices 1e150 x (80..120), volumes 1e150 x (1..1e4),
+    // periods 1..=10 — scaling the ratio before dividing overflows there and nowhere else
+    let seedh = g.seed;
+    g.exhaustive(
+        "huge_flows",
+        10 * 40,
+        &move |i| {
+            let n = (i % 10) as usize + 1;
+            let mut st = seedh ^ (i + 311).wrapping_mul(0x9E3779B97F4A7C15);
+            let mut mid = 100.0f64;
+            let bars: Vec<RawBar> = (0..200)
+                .map(|_| {
+                    mid = (mid * (1.0 + 0.03 * (unit(&mut st) - 0.5))).clamp(80.0, 120.0);
+                    let (h, l) = (mid * (1.0 + 0.01 * unit(&mut st)), mid * (1.0 - 0.01 * unit(&mut st)));
+                    let c = l + (h - l) * unit(&mut st);
+                    let v = 10f64.powf(4.0 * unit(&mut st));
+                    RawBar { o: c * 1e150, h: h * 1e150, l: l * 1e150, c: c * 1e150, v: v * 1e150 }
+                })
+                .collect();
+            Case { cfg: Cfg { kind: Kind::Mfi, p: vec![n], m: X(0.0) }, scalar: false, xs: vec![], bars, stride: 0 }
+        },
+        &check,
+    );
     // window extremes at every ring phase (hist::extreme_stress): a stale or missed extreme puts %K outside
     // [0, 100] as soon as the price leaves the remembered range
     const XP: [usize; 16] = [2, 3, 5, 8, 31, 64, 65, 100, 127, 128, 129, 200, 256, 257, 511, 1025];
